@@ -141,6 +141,13 @@ def check(run: Run) -> None:
             "generic": (fun("f", coords), [fun(f"F{k}", coords) for k in range(3)]),
             "constant": (var("c"), [var(f"c{k}") for k in range(3)]),
         }
+        if run.tier == "thorough":
+            # fields whose components depend on a single coordinate each (all three assignments of coordinates to components that
+            # are cyclic shifts), a field with one generic and two constant components, and a scalar field of one coordinate
+            for sh in range(3):
+                families[f"single-coordinate-shift{sh}"] = (fun("f", (coords[sh], )), [fun(f"F{k}", (coords[(k + sh) % 3], )) for k in range(3)])
+            for g_ in range(3):
+                families[f"one-generic-{g_}"] = (fun("f", coords[:2]), [fun(f"F{k}", coords) if k == g_ else var(f"c{k}") for k in range(3)])
         for fam, (f, Fall) in families.items():
             # O1
             g = apply_operator(tree, "gradient_operator", system, f)
